@@ -4,4 +4,4 @@ From OlaBase Require Import Bytes.
 From C10 Require Import Gen Model.
 Extraction Language OCaml.
 Extraction "model.ml" io_witness N.div_eucl feed feed_trace feed_trace_tr receive_call
-  u_recv u_init r_recv r_init o_recv o_init f_recv f_init ref_usb ref_robe ref_opc a_recv a_init ref_acn p_recv p_init ref_rpc.
+  u_recv u_init r_recv r_init o_recv o_init f_recv f_init ref_usb ref_robe ref_opc a_recv a_init ref_acn root_deliver robe_dispatch p_recv p_init ref_rpc.
